@@ -81,6 +81,10 @@ class Cfg:
         self.share_streams = 0.0   # probability that a launch of the second host thread goes to a stream of the first
         self.pyfunc = False        # Python frames (cat python_function, as written with with_stack=True) on a thread of their own
         self.rank_ids = "dense"    # rank numbering: 0..n-1, 1..n, with gaps, or large numbers
+        self.pad_ids = 0           # that many metadata entries right after the first event: event ids beyond int16
+        self.long_idle = False     # one early host operator, everything else more than 2^31 us later
+        self.stream_zero = False   # one of the streams is stream 0 (the null stream, as ROCm / Triton traces report it)
+        self.deep_queue = 0        # that many launches enqueued on one stream before its first kernel starts
         self.__dict__.update(kw)
 
     def to_json(self) -> Dict[str, Any]:
@@ -111,6 +115,8 @@ def draw_cfg(rng: random.Random, **force: Any) -> Cfg:
     c.share_streams = rng.choice([0.0, 0.0, 0.5])
     c.pyfunc = rng.random() < 0.15
     c.rank_ids = rng.choice(["dense"] * 7 + ["from1", "gaps", "big"])      # how the ranks of the job are numbered
+    c.pad_ids = 33000 if rng.random() < 0.04 else 0
+    c.long_idle = rng.random() < 0.04
     c.__dict__.update(force)
     return c
 
@@ -130,7 +136,9 @@ class RankSim:
             self.corr = 0                            # ... and nothing else does
         self.host_pid = 1000 + rank
         self.dev_pid = rank
-        self.stream_ids = rng.sample([7, 13, 20, 24, 28, 32], cfg.nstreams + (1 if cfg.two_threads else 0))
+        self.stream_ids = rng.sample([7, 13, 20, 24, 28, 32, 130], cfg.nstreams + (1 if cfg.two_threads else 0))
+        if cfg.stream_zero:
+            self.stream_ids[0] = 0
         self.last_end: Dict[int, int] = {s: 0 for s in self.stream_ids}
         # CUDA events recorded so far: {"corr", "stream", "done" (when the work before the record is finished), "t"}
         self.cuda_events: List[Dict[str, int]] = []
@@ -413,6 +421,17 @@ class RankSim:
                     # the second thread gets busy just after the first one told a stream to wait for an event
                     start = rng.choice(waits) - cfg.offset * 0 + self.g * rng.choice([0, 0, 1])
                 self.ops_seq(start, rng.randint(1, 3) + (2 if cfg.share_streams else 0), bwd_tid, bstreams, BWD_OPS)
+        if cfg.deep_queue:
+            # a burst: many launches issued back to back on a stream of its own while a long kernel keeps it busy
+            s_q = 99
+            t0 = t + 10 * self.g
+            self.x("cpu_op", "aten::burst", self.host_pid, main_tid, t0, 2 * cfg.deep_queue + 4, {"External id": self.next_corr()})
+            k_start = t0 + 2 * cfg.deep_queue + 10
+            for k in range(cfg.deep_queue):
+                c = self.next_corr()
+                self.x("cuda_runtime", "cudaLaunchKernel", self.host_pid, main_tid, t0 + 1 + 2 * k, 1, {"correlation": c, "External id": c + 1, "cbid": 211})
+                self.x("kernel", self.rng.choice(self.vocab_comp), self.dev_pid, s_q, k_start + 3 * k, 2,
+                       {"correlation": c, "stream": s_q, "device": self.rank, "External id": c + 1, "grid": [1, 1, 1], "registers per thread": 32})
         if cfg.pyfunc:
             # Python frames: complete events of category python_function, properly nested, on their own thread id
             t0 = t_begin
@@ -483,19 +502,32 @@ def simulate_rank(rng: random.Random, cfg: Cfg, rank: int) -> List[Dict[str, Any
             fill = [{"ph": "X", "cat": "cpu_op", "name": f"aten::op_r{rank}_{k}", "pid": sim.host_pid,
                      "tid": cfg.tid_base + rank, "ts": hi + 2 * k * cfg.grid, "dur": cfg.grid} for k in range(-cfg.filler)]
         ev[1:1] = fill
+    if cfg.long_idle:
+        # the profile starts with one early operator; everything else happens more than 2^31 us (35.8 min) later
+        for e in ev:
+            e["ts"] += (1 << 31) + 1000
+        ev.insert(1, {"ph": "X", "cat": "cpu_op", "name": "aten::empty", "pid": sim.host_pid, "tid": cfg.tid_base + rank,
+                      "ts": cfg.offset, "dur": cfg.grid})
     if cfg.noise:
         lo = min(e["ts"] for e in ev)
         hi = max(e["ts"] + e["dur"] for e in ev)
         for n in _noise(rng, rank, lo, hi, sim.host_pid, sim.dev_pid):
             pos = rng.randint(1, len(ev))
             ev.insert(pos, n)
+    if cfg.pad_ids:
+        # metadata entries take positions in the file's event list but give no rows: the ids of the events that follow
+        # exceed the range of a 16-bit integer while the trace stays small
+        pad = [{"ph": "M", "name": "thread_sort_index", "pid": sim.host_pid, "tid": cfg.tid_base + rank, "args": {"sort_index": k}}
+               for k in range(cfg.pad_ids)]
+        ev[1:1] = pad
     return ev
 
 
 def gen_case(rng: random.Random, **force: Any) -> Dict[str, Any]:
     cfg = draw_cfg(rng, **force)
     ranks = {}
-    ids = {"dense": [0, 1, 2, 3], "from1": [1, 2, 3, 4], "gaps": [0, 2, 5, 9], "big": [3, 64, 130, 1023]}[cfg.rank_ids]
+    ids = {"dense": list(range(12)), "from1": list(range(1, 13)), "gaps": [0, 2, 5, 9, 10, 11, 14, 20, 21, 22, 30, 31],
+           "big": [3, 64, 130, 1023, 1024, 1025, 2000, 2001, 2002, 2003, 2004, 2005]}[cfg.rank_ids]
     for r in range(cfg.nranks):
         ranks[ids[r]] = simulate_rank(rng, cfg, ids[r])
     return {"cfg": cfg.to_json(), "ranks": ranks}
